@@ -193,7 +193,7 @@ func (w *World) finalOracles() {
 			w.violate("C07", "unix-path", "Run returned but the unix-socket file %s still exists", w.p.Cfg.Host)
 		}
 		// asynchronous requests accepted before the stop request must not be executed twice; lost ones are legal now
-	} else if stopWanted && w.viol["C06"] == nil && w.ph != phDone {
+	} else if stopWanted && w.viol["C06"] == nil && w.ph != phDone && w.s.StopWhy() != "step-cap" && w.s.StopWhy() != "panic" {
 		w.violate("C06", "hang", "shutdown was requested but Run did not return; alive: %v", w.s.Alive())
 	}
 	// sanity of the harness itself
